@@ -35,6 +35,39 @@ data-type objects (siblings of one base type asked the same question, several un
 questions, refused calls first) against the stateless model and the SI oracle; (3) `order`: slices of the oracle
 stream run in 3-4 FRESH Python processes in different orders (rare classes first / last / shuffled); a failure is
 shrunk to a short call sequence `{"order": [...]}` that `replay` re-runs in a fresh process.
+
+Round 4 (classes: override gap, aliasing / one-shot iterables, conventions, numeric edges, input shapes, rare branches):
+  * (e) EVERY ordered unit pair of EVERY one of the 109 types (not a sample of the subtypes) in the correspondence and
+    in the oracle (si_pair / roundtrip / identity); every rejection site on every type, also with other types' units,
+    on collections of every class (`reject` sites coll_build / coll_convert / coll_to / header_csv);
+    collection.is_in_data_type_range on every class (`coll_range`).  Lean: C06_siblings_agree.
+  * (f) `shape`: the values as generator / iter() / map / zip at DataType.to_unit / to_ip / to_si / is_in_range, at the
+    collection constructor and the `values` setter (refusal is fine; an answer must be the full, right answer);
+    `alias`: answers kept, edited in place by the caller and asked again on one data-type object, a second object of
+    the same class, unit tables handed out as lists; fixed history pattern "two copies of one source, one edited and
+    converted"; every values argument also as tuple / array / list subclass / ints.  Lean: C06_to_unit_pointwise.
+  * (g) oracle inputs on which the plausible conventions differ: time aggregation on all 12 timesteps, daily, leap;
+    area normalisation with labels `x/y` and `x/y-z`, areas 1e-9 .. 3e12; collection range questions in every unit with
+    both raise modes; every composite is judged against the SI table, which shares no code path with ladybug.
+  * (h) magnitudes 1e-30 .. 1e+25 with non-round mantissas, halves and thirds on every ordered pair (relative bounds),
+    ints next to floats.  Lean: C06_scale_invariant, C06_offset_free_types.
+  * (i) periods written as text (`from_string`, string arguments, dict, repr round trip), unsorted / duplicated
+    datetimes, metadata present / absent, data types obtained by from_dict / from_string / duplicate / own name; unit
+    text that only looks like a listed unit (case, blanks, unicode look-alikes, superscripts) and non-text units.
+  * (j) branches of the anchored functions and where they are counted (`branch:...` in evidence):
+      _to_unit_base: both_base | from_is_base | to_is_base | two_legs; refusal in leg 1 / leg 2 (`reject` from / to)
+      is_in_range: no_unit | first_unit | converted_limits | unlisted_unit, each with / without values, both raise modes
+      _is_numeric: empty list | first value not a number (`raw`)
+      to_ip / to_si of every base type: already_listed | converted (one counter per type and unit, i.e. per elif) |
+          neither_si_nor_ip (atm, Torr, met, clo ...)
+      normalize_by_area: plain_unit | unit_with_slash; metadata_type | no_metadata_type; zero area; no normalized type
+      aggregate_by_area: specific_type (first loop) | base_type_of_subtype (second loop) | no match (ValueError);
+          slash_label | dash_label
+      _time_aggregated_collection / _time_rate_of_change_collection: hourly | daily caller; type without aggregate
+      Header.__init__: metadata_none | metadata_dict; immutable `values` setter: first assignment | later (refused)
+      convert_* / to_*: mutable | immutable override (branch:coll:<op>:<kind>)
+    Not reachable through the public API: `legFrom`/`legTo` answering AttributeError (a listed unit without a formula
+    method): the translator refuses such a tree.
 """
 import json
 import math
@@ -70,7 +103,13 @@ RULE = ('correspondence: every ordered unit pair of every base type x magnitudes
         'all 12 timesteps, leap and non-leap periods), generated in lock-step with the model so that every target '
         'exists; the WHOLE heap is compared after every step (reads in random order, twice); call histories on shared '
         'data-type objects with probes on both sides of every converted limit; slices of the oracle stream in 3-4 fresh '
-        'processes in rare-first / common-first / shuffled order.  A case is non-trivial when the implementation '
+        'processes in rare-first / common-first / shuffled order.  Round 4: every ordered pair of all 109 types, values '
+        '1e-30..1e+25 / halves / thirds / ints, values as list / tuple / array / list subclass (and as generator / iter / map '
+        '/ zip: refusal or the full answer), data types from new / from_dict / from_string / duplicate / own name, periods '
+        'from ctor / from_string / string arguments / dict / repr, reversed and duplicated datetimes, metadata present or '
+        'absent, unit text that looks like a listed unit (case, blanks, unicode) and non-text units at every site, kept and '
+        'edited answers on one object, range questions on collections of every class, all 12 timesteps in time aggregation; '
+        'branch counters `branch:*`.  A case is non-trivial when the implementation '
         'returns a value (not a rejection); distinct = distinct (op, input)')
 TRUSTED_BASE = [
     'translator tools/extract/units.py: the emitted Lean expression denotes the Python `return` expression over '
@@ -113,7 +152,11 @@ LEVEL_TEXT = ('Machine-checked Lean 4 theorems over exact rationals: every one o
               'referring to Header cells, constructors allocating fresh ones) is observably the value-level '
               'specification (history refines fresh objects built from the final public state), a refused operation '
               'changes nothing, reads are pure and commute, an operation on one object never changes another (immutable '
-              'twins), and in-place conversions inside a history keep the certified physical meaning.')
+              'twins), and in-place conversions inside a history keep the certified physical meaning. Round 4: every one '
+              'of the 109 registered types converts exactly like its base type (siblings agree), the answer of to_unit is one '
+              'function applied to each element (independent of container, splitting and earlier calls), the four branches '
+              'of _to_unit_base and the branches of to_ip/to_si are theorems, and every type except Temperature is '
+              'homogeneous (conv(k*x) = k*conv(x)), so the relative bounds hold alike at every magnitude.')
 LEVEL_NOTE = ('Trusted: Lean kernel; axioms propext/Classical.choice/Quot.sound only; the formula translator and the '
               'hand-written SI table; float vs exact arithmetic compared (1e-12), not proved; correspondence on '
               'generated inputs only for the dispatch/collection layer.')
@@ -222,6 +265,10 @@ def _magnitudes(rng, n_random):
     xs = [0.0, 1.0, -1.0]
     for k in range(-12, 13):
         xs += [10.0 ** k, -(10.0 ** k)]
+    # round 4: the far ends of the magnitudes the statement quantifies over, with non-round mantissas, halves, thirds
+    for k in (-30, -20, -15, 16, 20, 25):
+        xs += [7.7777777 * 10.0 ** k, -2.345678 * 10.0 ** k]
+    xs += [0.5, -1.5, 2.5, 1.0 / 3.0]
     for _ in range(n_random):
         r = rng.random()
         if r < 0.4:
@@ -282,14 +329,64 @@ def _bound_str(x):
 
 _POOL = None     # when a dict: data-type instances are SHARED between the calls of one history
 
+# ROUND 4 -- where a data-type object comes from (every provenance must convert alike) and the container / number
+# shapes in which one and the same list of values can be handed to the code
+INST_HOWS = ['new', 'dict', 'string', 'duplicate', 'named']
+SHAPES = ['list', 'tuple', 'array', 'sublist', 'ints']
+ONE_SHOT = ['gen', 'iter', 'map', 'zip']
 
-def _inst(name):
+
+class _SubList(list):
+    """A list subclass (a caller's own container type)."""
+
+
+def _shaped(xs, shape):
+    """The numbers `xs` in the container shape `shape` (the model takes lists: every shape is the same data)."""
+    if shape == 'tuple':
+        return tuple(xs)
+    if shape == 'array':
+        import array
+        return array.array('d', [float(x) for x in xs])
+    if shape == 'sublist':
+        return _SubList(xs)
+    if shape == 'ints':
+        return [int(x) if (isinstance(x, float) and x.is_integer() and abs(x) < 2.0 ** 53) else x for x in xs]
+    if shape == 'gen':
+        return (x for x in list(xs))
+    if shape == 'iter':
+        return iter(list(xs))
+    if shape == 'map':
+        return map(float, list(xs))
+    if shape == 'zip':
+        return (a for a, _b in zip(list(xs), list(xs)))
+    return list(xs)
+
+
+def _inst(name, how=None):
     import ladybug.datatype as dtm
     if _POOL is not None:
         if name not in _POOL:
             _POOL[name] = dtm.TYPESDICT[name]()
         return _POOL[name]
-    return dtm.TYPESDICT[name]()
+    cls = dtm.TYPESDICT[name]
+    if not how or how == 'new':
+        return cls()
+    try:
+        from ladybug.datatype.base import DataTypeBase
+        if how == 'dict':
+            obj = DataTypeBase.from_dict({'name': cls().name, 'data_type': name, 'type': 'DataType'})
+        elif how == 'string':
+            obj = DataTypeBase.from_string(cls().name)
+        elif how == 'duplicate':
+            obj = cls().duplicate()
+        elif how == 'named':
+            obj = cls('my own %s' % name)
+        else:
+            obj = cls()
+    except Exception:
+        return cls()
+    # the text forms of data types are C07's subject: an object of another class is not used here
+    return obj if type(obj) is cls else cls()
 
 
 def _model_limits(ctx, tabs, names):
@@ -372,19 +469,29 @@ def correspondence(ctx):
         for u in us:
             for v in us:
                 xs = _magnitudes(rng, ctx.n(6, 60))
-                cases.append((n, v, u, xs))
+                # round 4: the same data in every container shape, on data-type objects of every provenance
+                cases.append((n, v, u, xs, SHAPES[len(cases) % len(SHAPES)], INST_HOWS[(len(cases) // 5) % len(INST_HOWS)]))
                 ctx.count('pairs')
                 ctx.count('pair_values', len(xs))
-    # subtypes share the formulas: a sample of them
+                base = us[tabs[n]['base']]
+                ctx.count('branch:to_unit_base:%s' % ('both_base' if u == base and v == base else 'from_is_base' if u == base
+                                                      else 'to_is_base' if v == base else 'two_legs'))
+    # round 4 (kind e): subtypes inherit the formulas -- EVERY ordered pair of EVERY subtype (an override shows only there)
     for n in names:
         if tabs[n]['parent'] != n:
             us = tabs[n]['units']
-            for _ in range(ctx.n(2, 8)):
-                cases.append((n, rng.choice(us), rng.choice(us), _magnitudes(rng, 3)[::5]))
-                ctx.count('subtype_pairs')
+            for u in us:
+                for v in us:
+                    xs = _magnitudes(rng, 3)
+                    k = len(cases)
+                    cases.append((n, v, u, xs[k % 7::7], SHAPES[k % len(SHAPES)], INST_HOWS[(k // 5) % len(INST_HOWS)]))
+                    ctx.count('subtype_pairs')
 
     def impl_to_unit(c):
-        r = _inst(c[0]).to_unit(list(c[3]), c[1], c[2])
+        arg = _shaped(c[3], c[4]) if len(c) > 4 else list(c[3])
+        r = _inst(c[0], c[5] if len(c) > 5 else None).to_unit(arg, c[1], c[2])
+        if [float(x) for x in arg] != [float(x) for x in c[3]]:
+            return ['argument-changed'] + list(arg)
         return ['ok'] + list(r)
 
     def line_to_unit(c):
@@ -394,7 +501,8 @@ def correspondence(ctx):
         return OFFSET_TYPES_ABS if _has_offset(tabs, c[0]) else 0.0
 
     compare_num(ctx, 'to_unit', cases, line_to_unit, impl_to_unit, slack,
-                key=lambda c: (c[0], c[1], c[2], len(c[3]), repr(c[3][-1])))
+                key=lambda c: (c[0], c[1], c[2], len(c[3]), repr(c[3][-1])),
+                inp_fn=lambda c, line: {'case': list(c), 'line': line[:400]})
 
     # --- malformed: unlisted units in either position (about 10 % of the stream), empty value lists
     cases = []
@@ -424,7 +532,8 @@ def correspondence(ctx):
                 cases.append((which, n, u, [0.0, 1.0, -2.5, rng.uniform(-1e4, 1e4), 10.0 ** rng.randrange(-9, 9)]))
 
     def impl_sys(c):
-        vals, u = getattr(_inst(c[1]), c[0])(list(c[3]), c[2])
+        k = len(c[2]) + len(c[1])
+        vals, u = getattr(_inst(c[1], INST_HOWS[k % len(INST_HOWS)]), c[0])(_shaped(c[3], SHAPES[k % 4]), c[2])
         return ['ok', _utok(u)] + list(vals)
 
     compare_num(ctx, 'to_ip_si', cases, lambda c: '%s %s %s %s' % (c[0], c[1], _utok(c[2]), _vals(c[3])),
@@ -450,10 +559,13 @@ def correspondence(ctx):
             for p in probes:
                 cases.append((n, u, p))
                 ctx.count('in_range_cases')
+                ctx.count('branch:is_in_range:%s%s' % ('no_unit' if u is None else 'first_unit' if u == us[0] else
+                                                       'converted_limits' if u in us else 'unlisted_unit',
+                                                       ':no_values' if not p else ''))
 
     def impl_range(c, raise_exception=False):
         t = _inst(c[0])
-        r = t.is_in_range(list(c[2]), c[1], raise_exception)
+        r = t.is_in_range(_shaped(c[2], SHAPES[len(c[2]) % 4]), c[1], raise_exception)
         return ['ok', '1' if r else '0']
 
     def range_ok(c):
@@ -579,7 +691,8 @@ def _area_time_correspondence(ctx, tabs, names, base_names):
         return 24 * ts if cls.startswith('HourlyContinuous') else rng.choice([1, 2, 3])
 
     def pick_vals(k):
-        return [rng.choice([0.0, 1.0, -2.5, 1000.0, rng.uniform(-1e4, 1e4), 10.0 ** rng.randrange(-6, 7)])
+        return [rng.choice([0.0, 1.0, -2.5, 1000.0, rng.uniform(-1e4, 1e4), 10.0 ** rng.randrange(-6, 7), 0.5,
+                            7.7777777 * 10.0 ** rng.choice([-30, -15, -9, 9, 16, 25])])
                 for _ in range(k)]
 
     cases = []
@@ -599,8 +712,10 @@ def _area_time_correspondence(ctx, tabs, names, base_names):
                 au = 'ft2' if 'ft2' in u else 'm2'
             if op == 'norm' and rng.random() < 0.5:
                 au = 'ft2' if ('Btu' in u or 'ft' in u or u in ('cfm', 'gph')) else 'm2'
-            area = rng.choice([2.0, 0.5, 100.0, rng.uniform(0.1, 1e4), -3.0]) if rng.random() < 0.93 else 0.0
-            cases.append((op, cls, n, u, pick_vals(nvals(cls)), area, au))
+            area = rng.choice([2.0, 0.5, 100.0, rng.uniform(0.1, 1e4), -3.0, 7, 1e-9, 3e12]) if rng.random() < 0.93 else 0.0
+            form = {'ap': rng.choice(AP_FORMS), 'vshape': rng.choice(SHAPES[:4]), 'how': rng.choice(INST_HOWS),
+                    'meta': rng.choice([None, {}, {'type': 'Zone'}, {'type': 'Zone Intensity'}])}
+            cases.append((op, cls, n, u, pick_vals(nvals(cls)), area, au, form))
             ctx.count('area_op:' + op)
 
     def line_area(c):
@@ -608,7 +723,7 @@ def _area_time_correspondence(ctx, tabs, names, base_names):
                                         _vals(c[4]), _fbits(c[5]), _utok(c[6]))
 
     def impl_area(c):
-        coll = make_collection(c[1], c[2], c[3], c[4])
+        coll = make_collection(c[1], c[2], c[3], c[4], form=c[7])
         res = coll.normalize_by_area(c[5], c[6]) if c[0] == 'norm' else coll.aggregate_by_area(c[5], c[6])
         return ['ok'] + state(res)
 
@@ -627,9 +742,16 @@ def _area_time_correspondence(ctx, tabs, names, base_names):
             else:
                 n = rng.choice(agg_types) if r < 0.85 else rng.choice(names)
             u = rng.choice(tabs[n]['units'])
-            ts = rng.choice([1, 1, 2, 4, 6]) if cls.startswith('Hourly') else 1
-            cases.append((op, cls, n, u, pick_vals(nvals(cls, ts)), ts))
+            ts = 1
+            if cls.startswith('HourlyContinuous'):
+                ts = rng.choice([1, 1, 2, 3, 4, 5, 6, 10, 12] if ctx.quick else ALL_TIMESTEPS)
+            elif cls.startswith('Hourly'):
+                ts = rng.choice(ALL_TIMESTEPS)
+            form = {'ap': rng.choice(AP_FORMS), 'vshape': rng.choice(SHAPES[:4]), 'how': rng.choice(INST_HOWS),
+                    'order': rng.choice(['sorted', 'reversed', 'dup'])}
+            cases.append((op, cls, n, u, pick_vals(nvals(cls, ts)), ts, rng.random() < 0.3, form))
             ctx.count('time_op:' + op)
+            ctx.count('time_op:timestep:%d' % ts)
 
     def step_of(c):
         return float(c[5]) if c[1].startswith('Hourly') else 1. / 24.
@@ -639,7 +761,7 @@ def _area_time_correspondence(ctx, tabs, names, base_names):
                                      _vals(c[4]), _fbits(step_of(c)))
 
     def impl_time(c):
-        coll = make_collection(c[1], c[2], c[3], c[4], c[5])
+        coll = make_collection(c[1], c[2], c[3], c[4], c[5], c[6], c[7])
         res = coll.to_time_aggregated() if c[0] == 'tagg' else coll.to_time_rate_of_change()
         return ['ok'] + state(res)
 
@@ -772,7 +894,7 @@ def hist_exec(heap, o):
     elif k == 'set':
         c[o[2]] = o[3]
     elif k == 'vals':
-        c.values = list(o[2])
+        c.values = _shaped(o[2], o[3] if len(o) > 3 else 'list')
     elif k == 'rng':
         return ('flag', 1 if c.is_in_data_type_range(False) else 0)
     else:
@@ -854,7 +976,7 @@ def _propose(rng, heap, spec, tabs, other_units):
     if k == 'vals':
         r = rng.random()
         m = ob['n'] if r < 0.75 else ob['n'] + 1 if r < 0.9 else max(ob['n'] - 1, 0)
-        return [k, i, _hist_values(rng, m)]
+        return [k, i, _hist_values(rng, m), rng.choice(SHAPES[:4])]
     if k in ('norm', 'agg'):
         u = ob['unit']
         ipish = ('Btu' in u or 'ft' in u or u in ('cfm', 'gph', 'gpm'))
@@ -886,7 +1008,12 @@ def _hist_specs(ctx, tabs, names, base_names, per_class):
                 if cls.startswith('Hourly'):
                     ts = rng.choice(ALL_TIMESTEPS)
             specs.append({'cls': cls, 'type': n, 'unit': rng.choice(tabs[n]['units']),
-                          'values': _hist_values(rng, nv), 'timestep': ts, 'leap': rng.random() < 0.3})
+                          'values': _hist_values(rng, nv), 'timestep': ts, 'leap': rng.random() < 0.3,
+                          'form': {'ap': rng.choice(AP_FORMS), 'vshape': rng.choice(SHAPES[:4]),
+                                   'meta': rng.choice([None, {}, {'type': 'Zone'}]),
+                                   'order': rng.choice(['sorted', 'sorted', 'reversed', 'dup']),
+                                   'how': rng.choice(INST_HOWS)}})
+            ctx.count('hist:ap:' + specs[-1]['form']['ap'])
             ctx.count('hist:cls:' + cls)
             ctx.count('hist:timestep:%d' % ts)
             ctx.count('hist:single_value' if nv == 1 else 'hist:several_values')
@@ -898,7 +1025,7 @@ def _hist_impl(spec, ops, rng=None):
     """The history on the real code, in the token shape of the model answer."""
     try:
         heap = [make_collection(spec['cls'], spec['type'], spec['unit'], spec['values'], spec['timestep'],
-                                spec['leap'])]
+                                spec['leap'], spec.get('form'))]
     except ValueError:
         return ['err:value']
     out = ['ok']
@@ -1088,29 +1215,61 @@ def _near_limit(c, tabs):
         return False
 
 
-def make_collection(cls, tname, unit, values, timestep=1, leap=False):
-    """A small collection of class `cls` with len(values) values (built from plain numbers)."""
+AP_FORMS = ['ctor', 'string', 'strargs', 'dict', 'repr']
+
+
+def _make_period(form, end_day, timestep, leap, whole_year):
+    """The same analysis period through every way a user can write it down (round 4, kind i)."""
+    from ladybug.analysisperiod import AnalysisPeriod
+    em, ed = (12, 31) if whole_year else (1, end_day)
+    if form == 'string':
+        return AnalysisPeriod.from_string('1/1 to %d/%d between 0 and 23 @%d%s' % (em, ed, timestep, '*' if leap else ''))
+    if form == 'strargs':
+        return AnalysisPeriod('1', '01', '0', str(em), '%02d' % ed, '23', timestep, leap)
+    if form == 'dict':
+        return AnalysisPeriod.from_dict({'st_month': 1, 'st_day': 1, 'st_hour': 0, 'end_month': em, 'end_day': ed,
+                                         'end_hour': 23, 'timestep': timestep, 'is_leap_year': leap})
+    ap = AnalysisPeriod(1, 1, 0, em, ed, 23, timestep, leap)
+    if form == 'repr':
+        return AnalysisPeriod.from_string(str(ap))
+    return ap
+
+
+def make_collection(cls, tname, unit, values, timestep=1, leap=False, form=None):
+    """A small collection of class `cls` with len(values) values (built from plain numbers).  `form` (round 4) picks
+    the way the pieces are written down: {'ap': one of AP_FORMS, 'vshape': container shape of the values, 'meta':
+    header metadata | None, 'order': 'sorted' | 'reversed' | 'dup' (datetimes), 'how': data-type provenance}."""
     from ladybug import datacollection as dc
     from ladybug import datacollectionimmutable as dci
     from ladybug.header import Header
-    from ladybug.analysisperiod import AnalysisPeriod
     from ladybug.dt import DateTime
+    form = form or {}
     k = len(values)
     klass = getattr(dc, cls, None) or getattr(dci, cls)
-    dt = _inst(tname)
+    dt = _inst(tname, form.get('how'))
+    vals = _shaped(values, form.get('vshape', 'list'))
+    meta = form.get('meta')
+    meta = dict(meta) if isinstance(meta, dict) else None
+    order = form.get('order', 'sorted')
+
+    def arrange(keys):
+        if order == 'reversed':
+            return list(reversed(keys))
+        if order == 'dup':
+            return [keys[0]] * len(keys)
+        return keys
     if cls.startswith('HourlyContinuous'):
         # whole days only (k is a multiple of 24 * timestep)
-        ap = AnalysisPeriod(1, 1, 0, 1, k // (24 * timestep), 23, timestep, leap)
-        return klass(Header(dt, unit, ap), list(values))
+        ap = _make_period(form.get('ap', 'ctor'), k // (24 * timestep), timestep, leap, False)
+        return klass(Header(dt, unit, ap, meta), vals)
+    ap = _make_period(form.get('ap', 'ctor'), 31, timestep, leap, True)
     if cls.startswith('HourlyDiscontinuous'):
-        ap = AnalysisPeriod(timestep=timestep, is_leap_year=leap)
-        return klass(Header(dt, unit, ap), list(values), [DateTime(1, 1 + 2 * i, 3, 0, leap) for i in range(k)])
-    ap = AnalysisPeriod(is_leap_year=leap)
+        return klass(Header(dt, unit, ap, meta), vals, arrange([DateTime(1, 1 + 2 * i, 3, 0, leap) for i in range(k)]))
     if cls.startswith('Daily'):
-        return klass(Header(dt, unit, ap), list(values), [1 + 40 * i for i in range(k)])
+        return klass(Header(dt, unit, ap, meta), vals, arrange([1 + 40 * i for i in range(k)]))
     if cls.startswith('MonthlyPerHour'):
-        return klass(Header(dt, unit, ap), list(values), [(1 + i, 5) for i in range(k)])
-    return klass(Header(dt, unit, ap), list(values), [1 + i for i in range(k)])
+        return klass(Header(dt, unit, ap, meta), vals, arrange([(1 + i, 5) for i in range(k)]))
+    return klass(Header(dt, unit, ap, meta), vals, arrange([1 + i for i in range(k)]))
 
 
 def state(coll):
@@ -1247,8 +1406,9 @@ def check_case(op, inp):
     if op == 'order':
         return _check_order(inp)
     tname = inp['type']
+    shape = inp.get('shape', 'list')
     try:
-        inst = _inst(tname)
+        inst = _inst(tname, inp.get('how'))
     except Exception as e:
         return {'required': 'data type %s exists' % tname, 'observed': repr(e), 'sig': {'type': tname}}
     root = _root(inst)
@@ -1265,14 +1425,19 @@ def check_case(op, inp):
         u, v, x = inp['from'], inp['to'], float(inp['x'])
         sig = dict(sig, **{'from': u, 'to': v})
         try:
-            arg = [x, x]
-            y = inst.to_unit(arg, v, u)[0]
-            back = inst.to_unit([y], u, v)[0]
+            arg = _shaped([x, x], shape)
+            res = inst.to_unit(arg, v, u)
+            y = res[0]
+            back = inst.to_unit(_shaped([y], shape if shape != 'ints' else 'list'), u, v)[0]
         except Exception as e:
-            return {'required': 'conversion of listed units succeeds', 'observed': repr(e), 'sig': sig}
-        if arg != [x, x]:
-            return {'required': 'to_unit leaves the list it is given alone', 'observed': arg,
+            return {'required': 'conversion of listed units succeeds (values given as %s)' % shape, 'observed': repr(e),
+                    'sig': sig}
+        if list(arg) != [x, x]:
+            return {'required': 'to_unit leaves the list it is given alone', 'observed': list(arg),
                     'sig': dict(sig, fact='argument-changed')}
+        if len(res) != 2 or not (res[1] == y or (res[1] != res[1] and y != y)):
+            return {'required': 'two equal values convert to two equal values', 'observed': list(res),
+                    'sig': dict(sig, fact='elementwise')}
         if u not in SI[root] or v not in SI[root]:
             return {'required': 'SI definition known', 'observed': 'unit without definition', 'sig': sig}
         a, b = _si_conv(root, u, v)
@@ -1291,7 +1456,7 @@ def check_case(op, inp):
     if op == 'identity':
         u, x = inp['unit'], float(inp['x'])
         sig = dict(sig, unit=u)
-        y = inst.to_unit([x], u, u)[0]
+        y = inst.to_unit(_shaped([x], shape), u, u)[0]
         offs = OFFSET_TYPES_ABS if root == 'Temperature' else 0
         if not (math.isfinite(y) and abs(Fr(y) - Fr(x)) <= RT_TOL * abs(Fr(x)) + Fr(offs)):
             return {'required': 'to_unit to the unit already held changes nothing (2e-5)', 'observed': y,
@@ -1303,9 +1468,9 @@ def check_case(op, inp):
         xs = [float(x) for x in inp['values']]
         listed = _as_tuple(getattr(inst, which + '_units'))
         f = getattr(inst, 'to_' + which)
-        arg = list(xs)
+        arg = _shaped(xs, shape)
         vals, tgt = f(arg, u)
-        if arg != xs:
+        if list(arg) != xs:
             return {'required': 'to_%s leaves the list it is given alone' % which, 'observed': arg,
                     'sig': dict(sig, fact='argument-changed')}
         if tgt not in listed:
@@ -1323,8 +1488,10 @@ def check_case(op, inp):
                     'sig': dict(sig, fact='not-idempotent')}
         a, b = _si_conv(root, u, tgt)
         offs = OFFSET_TYPES_ABS if root == 'Temperature' else 0
+        if len(vals) != len(xs):
+            return {'required': '%d values' % len(xs), 'observed': list(vals), 'sig': dict(sig, fact='length')}
         for x, y in zip(xs, vals):
-            if not abs(Fr(y) - (a * Fr(x) + b)) <= SI_TOL * (abs(a * Fr(x)) + abs(b)) + Fr(offs):
+            if not (math.isfinite(y) and abs(Fr(y) - (a * Fr(x) + b)) <= SI_TOL * (abs(a * Fr(x)) + abs(b)) + Fr(offs)):
                 return {'required': 'values follow the unit label (SI, 0.2 %%): %s %s' % (x, u),
                         'observed': '%r %s' % (y, tgt), 'sig': dict(sig, fact='values')}
         return None
@@ -1364,6 +1531,38 @@ def check_case(op, inp):
                 d = c0.to_dict()
                 d['header']['unit'] = bad
                 r = type(c0).from_dict(d).header.unit
+            elif where == 'header_csv':
+                from ladybug.header import Header
+                from ladybug.analysisperiod import AnalysisPeriod
+                from ladybug.datatype.base import DataTypeBase
+                tname_text = type(inst)().name
+                try:
+                    if type(DataTypeBase.from_string(tname_text)) is not type(inst):
+                        return None     # the text form of the type does not give this type (C07's subject)
+                except Exception:
+                    return None
+                r = Header.from_csv_strings([tname_text, bad], AnalysisPeriod()).unit
+            elif where in ('coll_convert', 'coll_to', 'coll_build'):
+                cls = inp.get('cls', 'MonthlyCollection')
+                if where == 'coll_build':
+                    r = state(make_collection(cls, inp['type'], bad, [1.0, 2.0] if 'Continuous' not in cls else [1.0] * 24))
+                else:
+                    c0 = make_collection(cls, inp['type'], inp.get('other', good),
+                                         [1.0, 2.0] if 'Continuous' not in cls else [1.0] * 24)
+                    before = _snap(c0)
+                    try:
+                        if where == 'coll_to':
+                            r = state(c0.to_unit(bad))
+                        else:
+                            c0.convert_to_unit(bad)
+                            r = state(c0)
+                    except (ValueError, AttributeError) as e:
+                        if _snap(c0) != before:
+                            return {'required': 'a refused conversion leaves the collection as it was', 'observed': state(c0),
+                                    'sig': dict(sig, fact='changed-on-refusal')}
+                        if isinstance(e, ValueError) or (cls.endswith('Immutable') and where == 'coll_convert'):
+                            return None
+                        raise
             else:
                 raise KeyError(where)
         except ValueError:
@@ -1417,7 +1616,181 @@ def check_case(op, inp):
         return _check_norm_agg(inst, root, inp, sig)
     if op == 'time_agg':
         return _check_time_agg(inst, root, inp, sig)
+    if op == 'shape':
+        return _check_shape(inst, root, inp, sig)
+    if op == 'alias':
+        return _check_alias(inst, root, inp, sig)
+    if op == 'coll_range':
+        return _check_coll_range(inst, root, inp, sig)
     raise ValueError('unknown op ' + op)
+
+
+def _si_ok(root, u, v, x, y):
+    """y (unit v) is x (unit u) by the SI definitions within 0.2 %."""
+    a, b = _si_conv(root, u, v)
+    offs = OFFSET_TYPES_ABS if root == 'Temperature' else 0
+    return isinstance(y, (int, float)) and math.isfinite(y) and \
+        abs(Fr(y) - (a * Fr(x) + b)) <= SI_TOL * (abs(a * Fr(x)) + abs(b)) + Fr(offs)
+
+
+def _check_shape(inst, root, inp, sig):
+    """ROUND 4 (kind f): the values handed over as a ONE-SHOT iterable (generator, iter(), map, zip).  The code may
+    refuse such an argument (TypeError / AssertionError: it needs len()); if it answers, the answer must be the one
+    the statement demands for these numbers -- a first pass that consumes the iterable must not leave a second pass
+    with nothing."""
+    shape, what = inp['shape'], inp.get('what', 'to_unit')
+    xs = [float(x) for x in inp['values']]
+    u = inp['from']
+    sig = dict(sig, shape=shape, what=what, **{'from': u})
+    try:
+        if what == 'to_unit':
+            v = inp['to']
+            res, tgt = inst.to_unit(_shaped(xs, shape), v, u), v
+        elif what in ('to_ip', 'to_si'):
+            res, tgt = getattr(inst, what)(_shaped(xs, shape), u)
+        elif what == 'in_range':
+            want = inst.is_in_range(list(xs), u, False)
+            got = inst.is_in_range(_shaped(xs, shape), u, False)
+            if got != want:
+                return {'required': 'is_in_range(%r %s) = %r whatever the container' % (xs, u, want), 'observed': got,
+                        'sig': dict(sig, fact='range-differs')}
+            return None
+        else:
+            cls = inp['cls']
+            nv = 24 if 'Continuous' in cls else len(xs)
+            xs = (xs * 24)[:nv]
+            if what == 'coll_build':
+                c = make_collection(cls, inp['type'], u, xs, form={'vshape': shape})
+            else:
+                c = make_collection(cls, inp['type'], u, [0.0] * nv)
+                c.values = _shaped(xs, shape)
+            if list(c.values) != xs:
+                return {'required': 'the collection holds the values %r it was given' % (xs,), 'observed': list(c.values),
+                        'sig': dict(sig, fact='values-lost')}
+            c2 = c.to_unit(inp['to'])
+            res, tgt, v = list(c2.values), c2.header.unit, inp['to']
+            if tgt != v:
+                return {'required': 'unit label %r' % v, 'observed': tgt, 'sig': dict(sig, fact='label')}
+    except (TypeError, AssertionError, AttributeError):
+        return None         # refused: nothing is claimed about an argument the code does not take
+    res = list(res)
+    if tgt not in SI[root]:
+        return {'required': 'a listed unit', 'observed': tgt, 'sig': dict(sig, fact='target')}
+    if len(res) != len(xs) or not all(_si_ok(root, u, tgt, x, y) for x, y in zip(xs, res)):
+        return {'required': '%s of %r %s given as %s: the %d values that follow from the SI definitions (%s)'
+                % (what, xs, u, shape, len(xs), tgt), 'observed': res, 'sig': dict(sig, fact='one-shot-answer')}
+    return None
+
+
+def _check_alias(inst, root, inp, sig):
+    """ROUND 4 (kind f): results are kept, edited in place and asked for again on ONE data-type object.  An answer
+    already handed out must not change when the object is asked something else, and an answer edited by the caller
+    must not come back as the answer to the next caller."""
+    u, v = inp['from'], inp['to']
+    xs = [float(x) for x in inp['values']]
+    ys = [float(y) for y in inp['other']]
+    sig = dict(sig, **{'from': u, 'to': v})
+    mark = 98765.4321
+
+    def bad(fact, required, observed):
+        return {'required': required, 'observed': observed, 'sig': dict(sig, fact=fact)}
+    try:
+        arg = list(xs)
+        r1 = inst.to_unit(arg, v, u)
+        s1 = list(r1)
+        if not all(_si_ok(root, u, v, x, y) for x, y in zip(xs, s1)) or len(s1) != len(xs):
+            return bad('first-answer', '%r %s in %s by the SI definitions' % (xs, u, v), s1)
+        r2 = inst.to_unit(list(ys), v, u)
+        s2 = list(r2)
+        ip1, ipu = inst.to_ip(list(ys), u)
+        si1, siu = inst.to_si(list(ys), u)
+        inst.is_in_range(list(ys), u, False)
+        if list(r1) != s1:
+            return bad('kept-answer-changed', 'the answer %r handed out earlier stays as it was' % (s1,), list(r1))
+        if arg != xs:
+            return bad('argument-changed', 'the argument list stays %r' % (xs,), arg)
+        # the caller edits what he was given
+        for r in (r2, ip1, si1, r1):
+            if isinstance(r, list) and r:
+                r[0] = mark
+                r.append(mark)
+        r3 = inst.to_unit(list(xs), v, u)
+        if list(r3) != s1:
+            return bad('edited-answer-returns', 'the same question gives %r again after the caller edited earlier answers'
+                       % (s1,), list(r3))
+        r4 = inst.to_unit(list(ys), v, u)
+        if list(r4) != s2:
+            return bad('edited-answer-returns', 'the same question gives %r again after the caller edited earlier answers'
+                       % (s2,), list(r4))
+        ip2, ipu2 = inst.to_ip(list(ys), u)
+        si2, siu2 = inst.to_si(list(ys), u)
+        if ipu2 != ipu or siu2 != siu or len(ip2) != len(ys) or len(si2) != len(ys) or mark in ip2 or mark in si2:
+            return bad('edited-answer-returns', 'to_ip / to_si answer as before (%s, %s, %d values)' % (ipu, siu, len(ys)),
+                       '%r %s / %r %s' % (list(ip2), ipu2, list(si2), siu2))
+        # a second object of the same class answers like the first
+        other = type(inst)()
+        if list(other.to_unit(list(xs), v, u)) != s1:
+            return bad('second-object', 'a second %s object gives %r too' % (type(inst).__name__, s1),
+                       list(other.to_unit(list(xs), v, u)))
+        for attr in ('units', 'si_units', 'ip_units'):
+            a1 = getattr(inst, attr)
+            if isinstance(a1, list):
+                keep = list(a1)
+                a1.append('edited-by-caller')
+                if list(getattr(type(inst)(), attr)) != keep:
+                    return bad('unit-table-editable', '%s of a new object is %r after a caller edited the list he got' % (attr, keep),
+                               list(getattr(type(inst)(), attr)))
+    except Exception as e:
+        return bad('exception', 'conversions of listed units succeed', repr(e))
+    return None
+
+
+def _check_coll_range(inst, root, inp, sig):
+    """ROUND 4 (kind g): collection.is_in_data_type_range hands values, unit and the raise flag to
+    DataType.is_in_range: a value clearly outside the limits (expressed in the collection's unit) gives False /
+    ValueError, values clearly inside give True in both modes."""
+    cls, u = inp['cls'], inp['unit']
+    sig = dict(sig, cls=cls, unit=u)
+    a, b = _si_conv(root, inst.units[0], u)
+    lims = [None if l in (float('-inf'), float('inf')) else a * Fr(repr(float(l))) + b for l in (inst.min, inst.max)]
+    nv = 24 if 'Continuous' in cls else 3
+    inside = None
+    if lims[0] is not None and lims[1] is not None:
+        inside = float((lims[0] + lims[1]) / 2)
+    elif lims[0] is not None:
+        inside = float(lims[0] + max(abs(lims[0]), 1))
+    elif lims[1] is not None:
+        inside = float(lims[1] - max(abs(lims[1]), 1))
+    else:
+        inside = 1.5
+    try:
+        c = make_collection(cls, inp['type'], u, [inside] * nv, form=inp.get('form'))
+        if c.is_in_data_type_range(False) is not True or c.is_in_data_type_range(True) is not True or \
+                c.is_in_data_type_range() is not True:
+            return {'required': '%r %s is in the range of %s' % (inside, u, inp['type']), 'observed': False,
+                    'sig': dict(sig, fact='inside')}
+        for k, sgn in ((0, -1), (1, 1)):
+            if lims[k] is None:
+                continue
+            out = float(lims[k] + sgn * max(abs(lims[k]), Fr(1)) / 50)
+            vals = [inside] * nv
+            vals[-1] = out
+            c = make_collection(cls, inp['type'], u, vals, form=inp.get('form'))
+            if c.is_in_data_type_range(False) is not False:
+                return {'required': '%r %s is outside the range of %s' % (out, u, inp['type']), 'observed': True,
+                        'sig': dict(sig, fact='outside')}
+            for args in ((True,), ()):
+                try:
+                    c.is_in_data_type_range(*args)
+                    return {'required': 'is_in_data_type_range(%s) raises ValueError for %r %s' % (
+                        ', '.join(map(str, args)), out, u), 'observed': 'no exception', 'sig': dict(sig, fact='no-raise')}
+                except ValueError:
+                    pass
+            if (c.header.unit, list(c.values)) != (u, vals):
+                return {'required': 'a range question changes nothing', 'observed': state(c), 'sig': dict(sig, fact='read-changes')}
+    except Exception as e:
+        return {'required': 'range question answers', 'observed': repr(e), 'sig': dict(sig, fact='exception')}
+    return None
 
 
 NORMALIZED = {'Energy': 'EnergyIntensity', 'Power': 'EnergyFlux', 'VolumeFlowRate': 'VolumeFlowRateIntensity'}
@@ -1438,7 +1811,7 @@ def _check_norm_agg(inst, root, inp, sig):
     cls, unit, au, area = inp['cls'], inp['unit'], inp['area_unit'], float(inp['area'])
     sig = dict(sig, cls=cls, unit=unit, area_unit=au)
     xs = [float(x) for x in inp['values']]
-    coll = make_collection(cls, inp['type'], unit, xs)
+    coll = make_collection(cls, inp['type'], unit, xs, form=inp.get('form'))
     try:
         n = coll.normalize_by_area(area, au)
     except Exception as e:
@@ -1471,7 +1844,7 @@ def _check_time_agg(inst, root, inp, sig):
     cls, unit, ts = inp['cls'], inp['unit'], int(inp['timestep'])
     sig = dict(sig, cls=cls, unit=unit)
     xs = [float(x) for x in inp['values']]
-    coll = make_collection(cls, inp['type'], unit, xs, ts)
+    coll = make_collection(cls, inp['type'], unit, xs, ts, bool(inp.get('leap', False)), inp.get('form'))
     seconds = Fr(3600, ts) if cls.startswith('Hourly') else Fr(86400)
     try:
         agg = coll.to_time_aggregated()
@@ -1508,9 +1881,13 @@ def _check_coll(inst, root, inp, sig):
     sig = dict(sig, cls=cls)
     xs = [float(x) for x in inp['values']]
     try:
-        coll = make_collection(cls, inp['type'], inp['unit'], xs)
+        coll = make_collection(cls, inp['type'], inp['unit'], xs, int(inp.get('timestep', 1)), bool(inp.get('leap', False)),
+                               inp.get('form'))
     except Exception as e:
         return {'required': 'collection can be built', 'observed': repr(e), 'sig': dict(sig, fact='build')}
+    if list(coll.values) != xs:
+        return {'required': 'the collection holds the values it was given', 'observed': list(coll.values),
+                'sig': dict(sig, fact='build-values')}
     offs = OFFSET_TYPES_ABS if root == 'Temperature' else 0
 
     def meaning(c):
@@ -1649,7 +2026,7 @@ def _check_hist(inp):
     sig0 = {'type': root0, 'cls': cls, 'history': True}
     pick = random.Random(len(inp['ops']) * 7919 + len(xs))
     try:
-        heap = [make_collection(cls, tname, inp['unit'], xs, ts, leap)]
+        heap = [make_collection(cls, tname, inp['unit'], xs, ts, leap, inp.get('form'))]
     except Exception as e:
         return {'required': 'collection can be built', 'observed': repr(e), 'sig': dict(sig0, fact='build')}
     seconds = Fr(3600, ts) if cls.startswith('Hourly') else Fr(86400)
@@ -1756,7 +2133,7 @@ def _check_hist(inp):
                 if k == 'set':
                     want[args[0]] = args[1]
                 else:
-                    want = list(args[0])
+                    want = [float(x) for x in args[0]]
                 if after[i] != before[i][:3] + (tuple(want),):
                     return fail('write', 'values %r under the same unit and type' % (want,), repr(after[i]), o)
                 info[i]['M'] = meaning(root, after[i][2], want)
@@ -1958,6 +2335,32 @@ def _shrink_order(prefix, last, budget=24):
 replay = check_case
 
 ORACLE_X = [1.0, 1000.0, -40.0, 0.0, 1e-6, 1e9, 37.5, -273.15, 0.001]
+# ROUND 4 (kind h): magnitudes over the float range -- the statement is RELATIVE (0.2 %, 2e-5), so every pair is
+# asked at 1e-30 .. 1e+25 with non-round mantissas, on halves and thirds (largest unit factor is 4.2e27: no overflow)
+EDGE_MANT = [1.0, -2.345678, 7.7777777]
+EDGE_EXP = [-30, -20, -15, -12, -10, -9, -8, -7, -5, -3, 3, 5, 8, 12, 16, 20, 25]
+EDGE_FRACTIONS = [0.5, -1.5, 2.5, 1.0 / 3.0, 0.1 + 0.2]
+# ROUND 4 (kind i): text that looks like a unit -- case variants, surrounding / inner blanks, unicode look-alikes,
+# typographic superscripts and micro signs, non-text objects (None, a list, a number)
+EXOTIC_UNITS = ['\u00b0C', 'm\u00b2', 'W/m\u00b2', '\u00b5m', 'C\u200b', '\uff23', 'C\n', '\tC', 'C\u00a0', 'k\u0057h', 'kWh ',
+                'K\u2011m2/W', 'W\u2215m2', 'fl\u00a0oz', 'fl  oz', 'floz', 'm3/s\u2011m2', '\u2103', '%%', 'pct', 'L/s m2']
+NON_TEXT_UNITS = [None, ['C'], 0]
+
+
+def _edge_values(k, big):
+    exps = EDGE_EXP if big else EDGE_EXP[k % 2::2]
+    return [EDGE_MANT[(k + i) % 3] * 10.0 ** e for i, e in enumerate(exps)] + \
+        [EDGE_FRACTIONS[k % len(EDGE_FRACTIONS)], EDGE_FRACTIONS[(k + 2) % len(EDGE_FRACTIONS)]]
+
+
+def _case_variants(us):
+    out = []
+    for u in us:
+        for w in (u.lower(), u.upper(), u.title(), u.swapcase(), ' ' + u, u + ' ', u.replace('/', ' / '), u.replace('-', '_'),
+                  u.replace('2', '\u00b2').replace('3', '\u00b3')):
+            if w not in us and w not in out:
+                out.append(w)
+    return out
 
 
 def _oracle_cases(ctx):
@@ -1986,6 +2389,7 @@ def _oracle_cases(ctx):
         yield c
     for n in base_types:
         yield 'units_known', {'type': n}
+    kk = 0
     for n in base_types:
         try:
             us = list(_inst(n).units)
@@ -1998,8 +2402,56 @@ def _oracle_cases(ctx):
                 for x in xs:
                     yield 'si_pair', {'type': n, 'from': u, 'to': v, 'x': x}
                     yield 'roundtrip', {'type': n, 'from': u, 'to': v, 'x': x}
-            for x in xs:
-                yield 'identity', {'type': n, 'unit': u, 'x': x}
+                # round 4: the magnitudes of the float range, in every container shape, on objects of every provenance
+                for x in _edge_values(kk, big):
+                    kk += 1
+                    extra = {'shape': SHAPES[kk % len(SHAPES)], 'how': INST_HOWS[(kk // len(SHAPES)) % len(INST_HOWS)]}
+                    ctx.count('stratum:magnitude:1e%+03d' % (int(math.floor(math.log10(abs(x)) / 5.0)) * 5))
+                    ctx.count('stratum:shape:' + extra['shape'])
+                    ctx.count('stratum:how:' + extra['how'])
+                    yield 'si_pair', dict({'type': n, 'from': u, 'to': v, 'x': x}, **extra)
+                    yield 'roundtrip', dict({'type': n, 'from': u, 'to': v, 'x': x}, **extra)
+            for x in xs + _edge_values(kk, big):
+                kk += 1
+                yield 'identity', {'type': n, 'unit': u, 'x': x, 'shape': SHAPES[kk % len(SHAPES)]}
+    # round 4 (kind e): EVERY subtype on EVERY ordered pair (an override in one sibling shows on that sibling only)
+    for n in all_types:
+        if n in base_types:
+            continue
+        try:
+            us = list(_inst(n).units)
+        except Exception:
+            continue
+        for u in us:
+            for v in us:
+                kk += 1
+                for x in (ORACLE_X[kk % len(ORACLE_X)], EDGE_MANT[kk % 3] * 10.0 ** EDGE_EXP[kk % len(EDGE_EXP)],
+                          EDGE_FRACTIONS[kk % len(EDGE_FRACTIONS)]):
+                    ctx.count('stratum:subtype_pair_values')
+                    yield 'si_pair', {'type': n, 'from': u, 'to': v, 'x': x, 'shape': SHAPES[kk % len(SHAPES)]}
+                    yield 'roundtrip', {'type': n, 'from': u, 'to': v, 'x': x,
+                                        'how': INST_HOWS[kk % len(INST_HOWS)]}
+            kk += 1
+            yield 'identity', {'type': n, 'unit': u, 'x': EDGE_MANT[kk % 3] * 10.0 ** EDGE_EXP[kk % len(EDGE_EXP)]}
+    # round 4 (kind f): one-shot iterables and kept / edited answers, every type
+    for n in all_types:
+        try:
+            us = list(_inst(n).units)
+        except Exception:
+            continue
+        for q in range(2 if not big else 5):
+            u, v = rng.choice(us), rng.choice(us)
+            vals = [rng.choice(ORACLE_X), rng.uniform(-50, 50), 2.5]
+            for sh in ONE_SHOT:
+                what = rng.choice(['to_unit', 'to_unit', 'to_ip', 'to_si', 'in_range', 'coll_build', 'coll_values'])
+                c = {'type': n, 'from': u, 'to': v, 'values': vals, 'shape': sh, 'what': what}
+                if what.startswith('coll'):
+                    c['cls'] = rng.choice(COLL_CLASSES[:5] if what == 'coll_values' else COLL_CLASSES)
+                ctx.count('stratum:one_shot:' + sh)
+                yield 'shape', c
+            yield 'alias', {'type': n, 'from': u, 'to': v, 'values': vals, 'other': [rng.uniform(-50, 50), 7.0],
+                            'how': rng.choice(INST_HOWS)}
+        yield 'alias', {'type': n, 'from': us[0], 'to': us[0], 'values': [1.0, 2.0], 'other': [3.0]}
     for n in all_types:
         try:
             inst = _inst(n)
@@ -2018,6 +2470,28 @@ def _oracle_cases(ctx):
         for where in ('in_range_raise', 'acceptable', 'header_dict', 'coll_dict'):
             yield 'reject', {'type': n, 'unit': rng.choice(UNKNOWN_UNITS + others[:3]), 'where': where,
                              'other': rng.choice(us)}
+        # round 4 (kinds e, i): every site that takes a unit as text, with text that only LOOKS like a listed unit, with
+        # another type's unit, and with non-text; on collections of every class
+        looks = _case_variants(us) + EXOTIC_UNITS
+        for bad in rng.sample(looks, min(len(looks), 6 if not big else 30)) + rng.sample(others, 2):
+            if bad in us:
+                continue
+            ctx.count('stratum:unit_text:looks_like')
+            where = rng.choice(['from', 'to', 'header', 'in_range', 'in_range_raise', 'acceptable', 'header_dict', 'coll_dict',
+                                'header_csv', 'coll_convert', 'coll_to', 'coll_build'])
+            yield 'reject', {'type': n, 'unit': bad, 'where': where, 'other': rng.choice(us), 'cls': rng.choice(COLL_CLASSES),
+                             'how': rng.choice(INST_HOWS)}
+        for where in ('header_csv', 'coll_convert', 'coll_to', 'coll_build'):
+            yield 'reject', {'type': n, 'unit': rng.choice(UNKNOWN_UNITS + others), 'where': where, 'other': rng.choice(us),
+                             'cls': rng.choice(COLL_CLASSES)}
+        for bad in NON_TEXT_UNITS:
+            ctx.count('stratum:unit_text:non_text')
+            yield 'reject', {'type': n, 'unit': bad, 'where': rng.choice(['from', 'to', 'header', 'acceptable', 'coll_to']),
+                             'other': rng.choice(us), 'cls': rng.choice(COLL_CLASSES)}
+        for u in us:
+            if rng.random() < (0.34 if not big else 1.0):
+                yield 'coll_range', {'type': n, 'unit': u, 'cls': rng.choice(COLL_CLASSES),
+                                     'form': {'ap': rng.choice(AP_FORMS), 'vshape': rng.choice(['list', 'tuple'])}}
     for cls in COLL_CLASSES:
         for _ in range(120 if not big else 1500):
             n = rng.choice(base_types) if rng.random() < 0.7 else rng.choice(all_types)
@@ -2029,14 +2503,22 @@ def _oracle_cases(ctx):
             for _k in range(rng.randrange(1, 6)):
                 o = rng.choice(['cu', 'cu', 'tu', 'ci', 'cs', 'ti', 'ts'])
                 if o in ('cu', 'tu'):
-                    ops.append([o, rng.choice(us) if rng.random() < 0.9 else rng.choice(UNKNOWN_UNITS)])
+                    r = rng.random()
+                    ops.append([o, rng.choice(us) if r < 0.86 else rng.choice(UNKNOWN_UNITS) if r < 0.91 else
+                                rng.choice(_case_variants(us) + EXOTIC_UNITS) if r < 0.96 else
+                                rng.choice([u for m in SI for u in SI[m] if u not in us])])
                 else:
                     ops.append([o])
-            yield 'coll', {'type': n, 'cls': cls, 'unit': rng.choice(us),
-                           'values': [rng.choice(ORACLE_X + [rng.uniform(-100, 100)])
-                                      for _k in range(24 if cls.startswith('HourlyContinuous')
-                                                      else rng.choice([1, 2, 4]))],
-                           'ops': ops}
+            ts = rng.choice(ALL_TIMESTEPS) if (cls.startswith('Hourly') and rng.random() < 0.3) else 1
+            nv = 24 * ts if cls.startswith('HourlyContinuous') else rng.choice([1, 2, 4])
+            form = {'ap': rng.choice(AP_FORMS), 'vshape': rng.choice(SHAPES[:4]),
+                    'meta': rng.choice([None, {}, {'type': 'Zone', 'Zone': 'A'}]),
+                    'order': rng.choice(['sorted', 'sorted', 'reversed', 'dup']), 'how': rng.choice(INST_HOWS)}
+            ctx.count('stratum:coll:ap:' + form['ap'])
+            ctx.count('stratum:coll:order:' + form['order'])
+            pool_x = ORACLE_X + [rng.uniform(-100, 100), EDGE_MANT[_ % 3] * 10.0 ** EDGE_EXP[_ % len(EDGE_EXP)], 0.5, 2.5]
+            yield 'coll', {'type': n, 'cls': cls, 'unit': rng.choice(us), 'timestep': ts, 'leap': rng.random() < 0.3,
+                           'values': [rng.choice(pool_x) for _k in range(nv)], 'ops': ops, 'form': form}
 
 
 def _oracle_area_time_cases(ctx):
@@ -2065,19 +2547,34 @@ def _oracle_area_time_cases(ctx):
                 for au in ('m2', 'ft2'):
                     label = '%s-%s' % (u, au) if '/' in u else '%s/%s' % (u, au)
                     if label in SI[NORMALIZED[r]] and (big or rng.random() < 0.5):
+                        meta = rng.choice([None, {'type': 'Zone'}, {'type': 'Zone Intensity', 'k': 'v'}, {}])
+                        ctx.count('branch:normalize:unit_with_slash' if '/' in u else 'branch:normalize:plain_unit')
+                        ctx.count('branch:normalize:metadata_type' if meta and 'type' in meta else 'branch:normalize:no_metadata_type')
+                        ctx.count('branch:aggregate:specific_type' if n == r else 'branch:aggregate:base_type_of_subtype')
+                        ctx.count('branch:aggregate:dash_label' if '/' in u else 'branch:aggregate:slash_label')
                         yield 'norm_agg', {'type': n, 'cls': cls, 'unit': u, 'area_unit': au,
-                                           'area': rng.choice([2.0, 0.25, 37.5, rng.uniform(0.1, 1000)]),
-                                           'values': [rng.choice(ORACLE_X[:3] + [rng.uniform(-100, 100)])
-                                                      for _ in range(nv(cls))]}
+                                           'area': rng.choice([2.0, 0.25, 37.5, rng.uniform(0.1, 1000), 1e-9, 3e12, 7]),
+                                           'values': [rng.choice(ORACLE_X[:3] + [rng.uniform(-100, 100), 7.7777777e-12, -2.345678e15])
+                                                      for _ in range(nv(cls))],
+                                           'form': {'meta': meta, 'vshape': rng.choice(SHAPES[:4]), 'ap': rng.choice(AP_FORMS),
+                                                    'how': rng.choice(INST_HOWS)}}
         if cls.startswith('Hourly') or cls.startswith('Daily'):
             for n in rate:
                 r = root_of(n)
                 for u in SI[r]:
                     if not (big or rng.random() < 0.5):
                         continue
-                    ts = rng.choice([1, 2, 4]) if cls.startswith('Hourly') else 1
-                    yield 'time_agg', {'type': n, 'cls': cls, 'unit': u, 'timestep': ts,
-                                       'values': [rng.choice([1.0, 1000.0, -40.0, rng.uniform(-100, 100)])
+                    ts = rng.choice(ALL_TIMESTEPS) if cls.startswith('Hourly') else 1
+                    if cls.startswith('HourlyContinuous') and ts > 12 and not big:
+                        ts = rng.choice([1, 2, 3, 4, 5, 6, 10, 12])
+                    form = {'ap': rng.choice(AP_FORMS), 'vshape': rng.choice(SHAPES[:4]), 'how': rng.choice(INST_HOWS),
+                            'order': rng.choice(['sorted', 'reversed', 'dup'])}
+                    ctx.count('stratum:time_agg:timestep:%d' % ts)
+                    ctx.count('stratum:time_agg:ap:' + form['ap'])
+                    ctx.count('branch:time_agg:daily' if cls.startswith('Daily') else 'branch:time_agg:hourly')
+                    yield 'time_agg', {'type': n, 'cls': cls, 'unit': u, 'timestep': ts, 'leap': rng.random() < 0.3, 'form': form,
+                                       'values': [rng.choice([1.0, 1000.0, -40.0, rng.uniform(-100, 100), 7.7777777e-12, -2.345678e15,
+                                                              0.5])
                                                   for _ in range(nv(cls, ts))]}
 
 
@@ -2120,7 +2617,8 @@ def _blind_hist_cases(ctx, count):
             elif k == 'set':
                 ops.append([k, tgt, rng.randrange(0, 40), _hist_values(rng, 1)[0]])
             elif k == 'vals':
-                ops.append([k, tgt, _hist_values(rng, nv if rng.random() < 0.8 else nv + rng.choice([-1, 1]))])
+                ops.append([k, tgt, _hist_values(rng, nv if rng.random() < 0.8 else nv + rng.choice([-1, 1])),
+                            rng.choice(SHAPES[:4])])
             elif k in ('norm', 'agg'):
                 ops.append([k, tgt, rng.choice([2.0, 0.5, 37.5, rng.uniform(0.1, 1e3), 0.0]),
                             rng.choice(['m2', 'm2', 'ft2', 'ft2', 'mm2', ''])])
@@ -2128,8 +2626,18 @@ def _blind_hist_cases(ctx, count):
                 ops.append([k, tgt])
             ctx.count('oracle_hist_op:' + k)
         ctx.count('oracle_hist:timestep:%d' % ts)
+        if q % 9 == 0:
+            # round 4 (kind f): two copies taken from one source, one of them edited and converted, the other and the
+            # source asked again; then the source converted in place and the copies asked again
+            ops = [['tu', 0, round(rng.random(), 3)], ['tu', 0, round(rng.random(), 3)], ['set', 1, 0, 12345.678],
+                   ['cu', 1, round(rng.random(), 3)], ['rng', 2], ['ti', 0], ['ts', 0], ['cu', 3, round(rng.random(), 3)],
+                   ['imm', 0], ['mut', 5], ['vals', 6, _hist_values(rng, nv), 'tuple'], ['cu', 0, round(rng.random(), 3)],
+                   ['dup', 0], ['ci', 8], ['cs', 0]]
+            ctx.count('stratum:hist:copies_edited_pattern')
+        form = {'ap': rng.choice(AP_FORMS), 'vshape': rng.choice(SHAPES[:4]), 'meta': rng.choice([None, {}, {'type': 'Zone'}]),
+                'order': rng.choice(['sorted', 'sorted', 'reversed', 'dup']), 'how': rng.choice(INST_HOWS)}
         yield 'hist', {'cls': cls, 'type': n, 'unit': rng.choice(us), 'values': _hist_values(rng, nv),
-                       'timestep': ts, 'leap': rng.random() < 0.3, 'ops': ops}
+                       'timestep': ts, 'leap': rng.random() < 0.3, 'ops': ops, 'form': form}
 
 
 def _thist_cases(ctx, count):
@@ -2190,6 +2698,13 @@ def _rarity(case):
         return 2 if any(len(o) > 1 and o[1] in UNKNOWN_UNITS for o in inp['ops']) else 4
     if op == 'sys':
         return 3
+    if op in ('shape', 'coll_range'):
+        return 1
+    if op == 'alias':
+        return 2
+    if op in ('si_pair', 'roundtrip', 'identity') and (inp.get('shape', 'list') != 'list' or inp.get('how') or
+                                                        not (1e-7 < abs(inp.get('x', 1.0)) < 1e10)):
+        return 3
     return 5
 
 
@@ -2244,6 +2759,42 @@ def _run_order_slices(ctx, pool):
             ctx.fail('order', inp, r2['required'], r2['observed'], dict(r2.get('sig') or {}, order=True))
 
 
+_UNITS_CACHE = {}
+
+
+def _count_branches(ctx, op, inp):
+    """Which branch of the anchored functions an oracle input takes (computed from the input, not by instrumenting
+    the code): the counters land in evidence as `branch:...` (round 4, kind j)."""
+    try:
+        n = inp.get('type')
+        if n is None:
+            return
+        if n not in _UNITS_CACHE:
+            t = _inst(n)
+            _UNITS_CACHE[n] = (list(t.units), _as_tuple(t.si_units), _as_tuple(t.ip_units), _root(t))
+        us, si, ip, root = _UNITS_CACHE[n]
+        if op in ('si_pair', 'roundtrip'):
+            u, v = inp['from'], inp['to']
+            ctx.count('branch:to_unit_base:%s' % ('both_base' if u == us[0] and v == us[0] else 'from_is_base' if u == us[0]
+                                                  else 'to_is_base' if v == us[0] else 'two_legs'))
+        elif op == 'sys':
+            u, listed = inp['from'], (ip if inp['which'] == 'ip' else si)
+            ctx.count('branch:to_%s:%s' % (inp['which'], 'already_listed' if u in listed else
+                                           'neither_si_nor_ip' if (u not in si and u not in ip) else 'converted'))
+            ctx.count('branch:to_%s:%s:%s' % (inp['which'], root, u))
+        elif op == 'reject':
+            ctx.count('branch:reject:' + inp['where'])
+        elif op == 'range':
+            ctx.count('branch:is_in_range:' + ('first_unit' if inp['unit'] == us[0] else 'converted_limits'))
+        elif op == 'coll':
+            cls = inp['cls']
+            for o in inp['ops']:
+                ctx.count('branch:coll:%s:%s' % (o[0], 'immutable' if cls.endswith('Immutable') else 'mutable'))
+            ctx.count('branch:header:' + ('metadata_none' if (inp.get('form') or {}).get('meta') is None else 'metadata_dict'))
+    except Exception:
+        pass
+
+
 def oracle(ctx):
     big = ctx.searching or not ctx.quick
     pool = []
@@ -2251,6 +2802,7 @@ def oracle(ctx):
     def keep(gen):
         for c in gen:
             pool.append(c)
+            _count_branches(ctx, c[0], c[1])
             yield c
 
     run_oracle_cases(ctx, keep(_oracle_cases(ctx)), check_case)
